@@ -139,6 +139,55 @@ example : MetaOnce [.file [1] [9], .file [2] [8], .info [] []] ∧
     simp only [List.mem_cons, List.not_mem_nil, or_false] at hm
     rcases hm with rfl | rfl | rfl <;> simp [metaName] at hn <;> subst hn <;> decide
 
+/-- C16 for one recording: for every directory name, every sequence of trace,
+    kernel, perf, metadata and info messages (metadata files sent once), and
+    every segmentation of the byte stream, the receiver ends with a directory
+    for this connection that equals, file by file, what local recording of the
+    same buffers writes. -/
+theorem c16_network_equals_local (le fixed : Bool) (sock : Nat) (name : Bytes) (ms : List Msg)
+    (segs : List Bytes) (hplain : ∀ m ∈ ms, m.plain = true) (hwf : ∀ m ∈ ms, m.WF)
+    (hname : name.length < 2 ^ 31) (hon : MetaOnce ms)
+    (hfree : ∀ m ∈ ms, ∀ n, metaName m = some n → aget freshDir n = none)
+    (hsegs : segs.flatten = ((Msg.dirName name :: ms).map (encode le)).flatten) :
+    ∃ s d, recvConn le fixed (Msg.dirName name :: ms).length Server.init sock segs = some s ∧
+      obs s sock = [some d] ∧ ∀ g, aget d g = aget (ms.foldl localStep freshDir) g := by
+  have hwf' : ∀ m ∈ Msg.dirName name :: ms, m.WF := by
+    intro m hm
+    rcases List.mem_cons.mp hm with rfl | h
+    · exact hname
+    · exact hwf m h
+  rw [c16_framing_roundtrip le fixed _ Server.init sock segs hwf' hsegs]
+  have h0 := applyMsg_dirName_init fixed sock name
+  have o0 : obs { clients := [{ sock := sock, dir := name }], fs := createDir [] name } sock =
+      [some freshDir] := by
+    simp [obs, createDir_get_self]
+  obtain ⟨s', hr, ho⟩ := runConn_plain fixed ms _ sock freshDir [] (by simp [DistinctDirs]) hplain o0
+  refine ⟨s', ms.foldl dirStep freshDir, ?_, ho, ?_⟩
+  · simp [runConn, h0, hr]
+  · exact c16_files_equal_local ms freshDir hfree hon
+
+/-- non-vacuity: a recording with trace data and a metadata file -/
+example : ∃ s d, recvConn true false 3 Server.init 1
+      [((Msg.dirName [100] :: [Msg.data 7 [1], .file [97] [2]]).map (encode true)).flatten] = some s ∧
+      obs s 1 = [some d] ∧
+      ∀ g, aget d g = aget ([Msg.data 7 [1], .file [97] [2]].foldl localStep freshDir) g := by
+  refine c16_network_equals_local true false 1 [100] [Msg.data 7 [1], .file [97] [2]] _ ?_ ?_ (by decide)
+    ?_ ?_ (by simp)
+  · intro m hm; simp at hm; rcases hm with rfl | rfl <;> rfl
+  · intro m hm; simp at hm; rcases hm with rfl | rfl <;> simp [Msg.WF]
+  · refine ⟨?_, ?_, ?_, ?_, trivial⟩
+    · intro n hn; simp [metaName] at hn
+    · intro m' hm' n hn f data hf
+      simp at hm'; subst hm'
+      simp [metaName] at hn; simp [fileOf] at hf
+      rw [← hn, ← hf.1]; decide
+    · intro n hn m' hm'; simp at hm'
+    · intro m' hm'; simp at hm'
+  · intro m hm n hn
+    simp at hm
+    rcases hm with rfl | rfl <;> simp [metaName] at hn
+    subst hn; decide
+
 /-! ### several clients -/
 
 /-- Isolation, for any number of clients and any interleaving of their
